@@ -192,7 +192,7 @@ func init() {
 
 	// Generic families: <kind><voters>-d<deviations>
 	for n := 1; n <= 5; n++ {
-		for d := 0; d <= 5; d++ {
+		for d := 0; d <= 6; d++ {
 			// elections + writes, no crashes
 			reg(&explore.Suite{Name: fmt.Sprintf("rep%d-d%d", n, d), Cfg: sim.Config{Voters: n},
 				Budget: sim.Budget{Timeouts: 3, Elapses: 3, Beats: 2, Writes: 2, Reorders: -1, Splits: 2, Deviations: d}})
@@ -210,7 +210,7 @@ func init() {
 				Budget: sim.Budget{Timeouts: 2, Elapses: 2, Beats: 2, Writes: 2, Reorders: -1, Splits: 3, Drops: 1, DropReplies: 1, Dups: 2, Deviations: d}})
 		}
 	}
-	for d := 0; d <= 5; d++ {
+	for d := 0; d <= 6; d++ {
 		reg(&explore.Suite{Name: fmt.Sprintf("split3-d%d", d), Cfg: sim.Config{Voters: 3}, Seed: seedSplit,
 			Budget: sim.Budget{Timeouts: 2, Elapses: 2, Beats: 1, Reorders: -1, Splits: 1, Deviations: d}})
 		// S-revote: after S-split n2 voted for n0 (which leads term 3), crashed and
@@ -225,7 +225,7 @@ func init() {
 		reg(&explore.Suite{Name: fmt.Sprintf("lead3-d%d", d), Cfg: sim.Config{Voters: 3, StoreHook: true}, Seed: seedLeader3,
 			Budget: sim.Budget{Timeouts: 2, Elapses: 2, Beats: 1, Writes: 2, Reorders: -1, Splits: 2, Crashes: 2, Arms: 1, Restarts: 2, Deviations: d}})
 	}
-	for d := 0; d <= 4; d++ {
+	for d := 0; d <= 6; d++ {
 		reg(&explore.Suite{Name: fmt.Sprintf("regained5-d%d", d), Cfg: sim.Config{Voters: 5}, Seed: seedRegained5,
 			Budget: sim.Budget{Timeouts: 1, Elapses: 1, Beats: 2, Writes: 1, Reorders: -1, Splits: 1, Deviations: d}})
 	}
@@ -234,7 +234,7 @@ func init() {
 	// committed); n0 and n3 are then cut off and n1 wins term 4 with n2 and n4.
 	regainedElect := append(append([]sim.Event{}, seedRegained5...), sim.MustParse("rt 0>3:AE#5", "write n0", "rt 0>3:AE#6", "isolate n0", "isolate n3",
 		"timeout n1", "rt 1>2:RV#0 a=2", "rt 1>4:RV#0 a=2", "rt 1>2:RV#1", "rt 1>4:RV#1")...)
-	for d := 0; d <= 4; d++ {
+	for d := 0; d <= 6; d++ {
 		reg(&explore.Suite{Name: fmt.Sprintf("regainedelect5-d%d", d), Cfg: sim.Config{Voters: 5}, Seed: regainedElect,
 			Budget: sim.Budget{Timeouts: 1, Elapses: 1, Beats: 2, Writes: 1, Cuts: 1, Reorders: -1, Splits: 1, Deviations: d}})
 	}
@@ -243,22 +243,22 @@ func init() {
 	// still hold the futures); n1 leads term 2 with n2; the partition has healed.
 	stopRestart := append(append([]sim.Event{}, seedLeader3...), sim.MustParse("isolate n0", "write n0", "write n0", "api n0 Stop", "api n0 Restart",
 		"timeout n1", "rt 1>2:RV#0 a=2", "rt 1>2:RV#1", "rt 1>2:AE#0", "rt 1>2:AE#1", "heal")...)
-	for d := 0; d <= 4; d++ {
+	for d := 0; d <= 6; d++ {
 		reg(&explore.Suite{Name: fmt.Sprintf("stoprestart3-d%d", d), Cfg: sim.Config{Voters: 3}, Seed: stopRestart,
 			Budget: sim.Budget{Timeouts: 1, Elapses: 1, Beats: 2, Writes: 2, Cuts: 1, Reorders: -1, Splits: 1, ClientTimeouts: 1, Deviations: d}})
 	}
 	for n := 2; n <= 4; n++ {
-		for d := 0; d <= 5; d++ {
+		for d := 0; d <= 6; d++ {
 			// partitions: isolate / heal any node
 			reg(&explore.Suite{Name: fmt.Sprintf("part%d-d%d", n, d), Cfg: sim.Config{Voters: n},
 				Budget: sim.Budget{Timeouts: 3, Elapses: 3, Beats: 1, Writes: 2, Cuts: 2, Reorders: -1, Splits: 1, Deviations: d}})
 		}
 	}
-	for d := 0; d <= 4; d++ {
+	for d := 0; d <= 6; d++ {
 		reg(&explore.Suite{Name: fmt.Sprintf("stale5-d%d", d), Cfg: sim.Config{Voters: 5}, Seed: seedStale5,
 			Budget: sim.Budget{Timeouts: 1, Elapses: 1, Beats: 2, Writes: 1, Reorders: -1, Splits: 1, Deviations: d}})
 	}
-	for d := 0; d <= 5; d++ {
+	for d := 0; d <= 6; d++ {
 		reg(&explore.Suite{Name: fmt.Sprintf("deposed3-d%d", d), Cfg: sim.Config{Voters: 3}, Seed: seedDeposed3,
 			Budget: sim.Budget{Timeouts: 1, Elapses: 1, Beats: 1, Writes: 1, Reads: 2, Reorders: -1, Splits: 1, Cuts: 1, Deviations: d}})
 		reg(&explore.Suite{Name: fmt.Sprintf("read3-d%d", d), Cfg: sim.Config{Voters: 3}, Seed: seedLeader3,
@@ -300,7 +300,7 @@ func init() {
 	}
 	numHV = hv
 	// membership: 1-3 voters plus spares started empty
-	for d := 0; d <= 4; d++ {
+	for d := 0; d <= 6; d++ {
 		for v := 1; v <= 3; v++ {
 			reg(&explore.Suite{Name: fmt.Sprintf("mem%d-d%d", v, d), Cfg: sim.Config{Voters: v, Spares: 2}, Monitors: memberMonitors, Classify: memberClassify,
 				Budget: sim.Budget{Timeouts: 2, Elapses: 2, Beats: 1, Writes: 1, Members: 2, Reorders: -1, Splits: 1, Cuts: 1, Deviations: d}})
@@ -317,7 +317,7 @@ func init() {
 	reg(&explore.Suite{Name: "freemem4", Cfg: sim.Config{Voters: 4, Spares: 1}, Monitors: memberMonitors,
 		Budget: sim.Budget{Timeouts: 9, Elapses: 9, Beats: 9, Writes: 9, Reads: 9, Members: 9, Reorders: -1, Splits: 9, Cuts: 9, Crashes: 9, Restarts: 9, Deviations: -1}})
 	// C16: timed, faults only on the minority node n2
-	for d := 0; d <= 4; d++ {
+	for d := 0; d <= 6; d++ {
 		for rot := 0; rot < 3; rot++ {
 			reg(&explore.Suite{Name: fmt.Sprintf("sticky3r%d-d%d", rot, d), Cfg: sim.Config{Voters: 3, Timed: true, Asym: true, Rot: rot}, Seed: seedLeader3,
 				Monitors: stickyMonitors(0, []int{0, 1}), Filter: onlyNodes(2),
@@ -328,7 +328,7 @@ func init() {
 	// by n0 and n1) without ever learning of it; it has been campaigning for 10
 	// intervals with the old configuration.
 	removedNode := append(append([]sim.Event{}, seedLeader3...), sim.MustParse("isolate n2", "remove n0 a=2", "adv", "adv", "adv", "adv", "adv", "adv", "adv", "adv", "adv", "adv", "adv", "adv", "adv", "adv")...)
-	for d := 0; d <= 4; d++ {
+	for d := 0; d <= 6; d++ {
 		reg(&explore.Suite{Name: fmt.Sprintf("removed3-d%d", d), Cfg: sim.Config{Voters: 3, Timed: true, Asym: true}, Seed: removedNode,
 			Monitors: stickyMonitors(0, []int{0, 1}), Filter: onlyNodes(2),
 			Budget: sim.Budget{Cuts: 2, Crashes: 1, Restarts: 1, Steps: 16, Reorders: -1, MsgSteps: 3, Deviations: d}})
@@ -339,7 +339,7 @@ func init() {
 	contested := sim.MustParse("timeout n0", "rt 0>1:RV#0 a=2", "timeout n2", "rt 2>1:RV#0 a=2", "rt 0>1:RV#1", "rt 2>1:RV#1",
 		"rt 0>2:RV#0", "rt 0>2:RV#1", "rt 2>0:RV#0", "rt 2>0:RV#1", "rt 0>1:AE#0", "rt 0>2:AE#0", "rt 0>1:AE#1", "rt 0>2:AE#1",
 		"isolate n2", "adv", "adv", "adv", "adv", "adv", "adv", "adv", "adv", "adv", "adv")
-	for d := 0; d <= 4; d++ {
+	for d := 0; d <= 6; d++ {
 		for rot := 0; rot < 3; rot++ {
 			reg(&explore.Suite{Name: fmt.Sprintf("contested3r%d-d%d", rot, d), Cfg: sim.Config{Voters: 3, Timed: true, Asym: true, Rot: rot}, Seed: contested,
 				Monitors: stickyMonitors(0, []int{0, 1}), Filter: onlyNodes(2),
@@ -358,14 +358,14 @@ func init() {
 		"adv", "adv", "adv", "adv", "adv", "adv", "adv", "adv", "heal", "cut n0 a=2",
 		"drop 0>1:IS#3", "drop 0>1:IS#4", "drop 0>1:IS#5", "drop 0>1:IS#6", "drop 0>1:IS#7", "drop 0>1:IS#8", "drop 0>1:IS#9", "drop 0>1:IS#10",
 		"drop 1>0:RV#0", "drop 1>2:RV#0", "rt 0>1:IS#11")...)
-	for d := 0; d <= 4; d++ {
+	for d := 0; d <= 6; d++ {
 		reg(&explore.Suite{Name: fmt.Sprintf("stickysnap3-d%d", d), Cfg: sim.Config{Voters: 3, Timed: true, Asym: true, SnapAt: 2, SnapPad: 33 * 1024}, Seed: snapCatchup,
 			Monitors: stickyMonitors(0, []int{0, 1}), Filter: onlyNodes(2),
 			Budget: sim.Budget{Cuts: 2, Steps: 12, Reorders: -1, MsgSteps: 4, Deviations: d}})
 	}
 	// C16 seed S-isolated: n2 has been cut off for 10 intervals and is campaigning
 	isolated := append(append([]sim.Event{}, seedLeader3...), sim.MustParse("isolate n2", "adv", "adv", "adv", "adv", "adv", "adv", "adv", "adv", "adv", "adv")...)
-	for d := 0; d <= 4; d++ {
+	for d := 0; d <= 6; d++ {
 		for rot := 0; rot < 3; rot++ {
 			reg(&explore.Suite{Name: fmt.Sprintf("rejoin3r%d-d%d", rot, d), Cfg: sim.Config{Voters: 3, Timed: true, Asym: true, Rot: rot}, Seed: isolated,
 				Monitors: stickyMonitors(0, []int{0, 1}), Filter: onlyNodes(2),
@@ -378,7 +378,7 @@ func init() {
 	// S-minority5: leader n0 keeps only n1 (2 of 5); n2 leads term 2 with n3, n4.
 	minority5 := append(append([]sim.Event{}, seedLeader5...), sim.MustParse("cut n0 a=2", "cut n0 a=3", "cut n0 a=4", "cut n1 a=2", "cut n1 a=3", "cut n1 a=4",
 		"adv", "adv", "adv", "adv", "adv", "adv", "adv", "adv", "adv", "adv", "adv", "adv", "adv")...)
-	for d := 0; d <= 4; d++ {
+	for d := 0; d <= 6; d++ {
 		reg(&explore.Suite{Name: fmt.Sprintf("minlease5-d%d", d), Cfg: sim.Config{Voters: 5, Timed: true}, Seed: minority5, Monitors: leaseMonitors,
 			Budget: sim.Budget{Writes: 1, LeaseReads: 2, Lags: 1, Steps: 8, Reorders: -1, Deviations: d}})
 	}
@@ -389,7 +389,7 @@ func init() {
 	lagging := append(append([]sim.Event{}, seedLeader3...), sim.MustParse(
 		"isolate n2", "write n0", "rt 0>1:AE#2", "rt 0>1:AE#3", "timeout n1", "rt 1>0:RV#0 a=2", "rt 1>0:RV#1", "rt 1>0:AE#0", "rt 1>0:AE#1",
 		"drop 0>2:AE#2", "drop 0>2:AE#3", "drop 1>2:RV#0", "drop 1>2:RV#1", "cut n1 a=0", "adv", "adv", "adv", "adv", "adv", "adv", "adv", "heal", "cut n1 a=0")...)
-	for d := 0; d <= 4; d++ {
+	for d := 0; d <= 6; d++ {
 		reg(&explore.Suite{Name: fmt.Sprintf("laglease3-d%d", d), Cfg: sim.Config{Voters: 3, Timed: true}, Seed: lagging, Monitors: leaseMonitors,
 			Budget: sim.Budget{Writes: 1, LeaseReads: 2, Lags: 1, Steps: 8, Reorders: -1, MsgSteps: 1, Deviations: d}})
 	}
@@ -397,18 +397,18 @@ func init() {
 	// compacted its log; a member it adds now can only be served by snapshot.
 	cutSnap := append(append([]sim.Event{}, seedLeader3...), sim.MustParse("write n0", "adv", "write n0", "adv", "write n0", "adv", "cut n0 a=1", "cut n0 a=2",
 		"adv", "adv", "adv", "adv", "adv", "adv", "adv", "adv", "adv", "adv", "adv", "adv")...)
-	for d := 0; d <= 4; d++ {
+	for d := 0; d <= 6; d++ {
 		reg(&explore.Suite{Name: fmt.Sprintf("nvsnaplease4-d%d", d), Cfg: sim.Config{Voters: 3, Spares: 1, Timed: true, SnapAt: 2}, Seed: cutSnap, Monitors: leaseMonitors,
 			Budget: sim.Budget{Writes: 1, LeaseReads: 2, Members: 1, Lags: 1, Steps: 8, Reorders: -1, Deviations: d}})
 	}
 	// S-nonvoters, timed (C17): leader n0 keeps only the two non-voters; n1 leads
 	// term 2 on the other side; four intervals have passed.
 	nvLease := append(append([]sim.Event{}, seedNonVoters...), sim.MustParse("rt 1>2:AE#1", "adv", "adv", "adv", "adv")...)
-	for d := 0; d <= 4; d++ {
+	for d := 0; d <= 6; d++ {
 		reg(&explore.Suite{Name: fmt.Sprintf("nvlease5-d%d", d), Cfg: sim.Config{Voters: 3, Spares: 2, Timed: true}, Seed: nvLease, Monitors: leaseMonitors,
 			Budget: sim.Budget{Writes: 1, LeaseReads: 2, Lags: 1, Steps: 8, Reorders: -1, Deviations: d}})
 	}
-	for d := 0; d <= 4; d++ {
+	for d := 0; d <= 6; d++ {
 		reg(&explore.Suite{Name: fmt.Sprintf("lease3-d%d", d), Cfg: sim.Config{Voters: 3, Timed: true}, Seed: seedLeader3, Monitors: leaseMonitors,
 			Budget: sim.Budget{Writes: 1, LeaseReads: 2, Cuts: 2, Lags: 2, Steps: 30, Reorders: -1, MsgSteps: 1, Deviations: d}})
 		reg(&explore.Suite{Name: fmt.Sprintf("cutlease3-d%d", d), Cfg: sim.Config{Voters: 3, Timed: true}, Seed: cutLeader, Monitors: leaseMonitors,
@@ -421,7 +421,7 @@ func init() {
 	termGap := append(append([]sim.Event{}, seedLeader3...), sim.MustParse(
 		"cut n0 a=1", "write n0", "rt 0>2:AE#2", "rt 0>2:AE#3", "cut n0 a=2", "timeout n2", "rt 2>1:RV#0 a=2", "deliver 2>1:RV#1",
 		"timeout n2", "deliver 2>1:RV#2 a=2", "crash n2", "crash n0", "restart n0", "drop 0>1:AE#2", "drop 0>1:AE#3")...)
-	for d := 0; d <= 3; d++ {
+	for d := 0; d <= 6; d++ {
 		reg(&explore.Suite{Name: fmt.Sprintf("live-termgap3-d%d", d), Cfg: sim.Config{Voters: 3}, Seed: termGap, Leaf: monitor.Continuation(150),
 			Budget: sim.Budget{Timeouts: 1, Elapses: 1, Writes: 1, Cuts: 1, Reorders: -1, Splits: 1, Deviations: d}})
 	}
@@ -430,24 +430,24 @@ func init() {
 	// again starts probing below n2's snapshot.
 	readd := append(append([]sim.Event{}, seedLeader3...), sim.MustParse(
 		"write n0", "rt 0>1:AE#2", "rt 0>2:AE#2", "remove n0 a=2", "rt 0>1:AE#3", "rt 0>2:AE#3", "rt 0>1:AE#4", "rt 0>2:AE#4", "beat n0")...)
-	for d := 0; d <= 3; d++ {
+	for d := 0; d <= 6; d++ {
 		reg(&explore.Suite{Name: fmt.Sprintf("live-readd3-d%d", d), Cfg: sim.Config{Voters: 3, SnapAt: 2}, Seed: readd, Monitors: snapMonitors, Leaf: monitor.Continuation(150),
 			Budget: sim.Budget{Timeouts: 1, Elapses: 1, Beats: 1, Writes: 1, Members: 1, Cuts: 1, Reorders: -1, Splits: 1, Deviations: d}})
 	}
 	// eager follower (C15): only n2 takes local snapshots, so its snapshot runs
 	// ahead of what the leader still probes after reordered or late replies.
-	for d := 0; d <= 4; d++ {
+	for d := 0; d <= 6; d++ {
 		reg(&explore.Suite{Name: fmt.Sprintf("live-eager3-d%d", d), Cfg: sim.Config{Voters: 3, SnapAt: 2, SnapNodes: []int{2}}, Seed: seedLeader3, Monitors: snapMonitors, Leaf: monitor.Continuation(150),
 			Budget: sim.Budget{Timeouts: 1, Elapses: 1, Beats: 2, Writes: 2, Cuts: 1, Reorders: -1, Splits: 2, Deviations: d}})
 	}
 	// one voter growing a cluster (C15): non-voters are added, crash, the voter restarts
-	for d := 0; d <= 4; d++ {
+	for d := 0; d <= 6; d++ {
 		reg(&explore.Suite{Name: fmt.Sprintf("live-mem1-d%d", d), Cfg: sim.Config{Voters: 1, Spares: 1}, Monitors: memberMonitors, Classify: memberClassify, Leaf: monitor.Continuation(150),
 			Budget: sim.Budget{Timeouts: 2, Elapses: 1, Beats: 1, Writes: 1, Members: 2, Crashes: 1, Restarts: 1, Reorders: -1, Splits: 1, Deviations: d}})
 	}
 	// C15: exploration families with the fault-free continuation evaluated on
 	// every leaf (quick) or every distinct state (thorough, suffix "all").
-	for d := 0; d <= 4; d++ {
+	for d := 0; d <= 6; d++ {
 		for _, all := range []bool{false, true} {
 			sfx := ""
 			if all {
@@ -470,7 +470,7 @@ func init() {
 	staleSuffix := append(append([]sim.Event{}, seedLeader3...), sim.MustParse(
 		"isolate n0", "write n0", "write n0", "timeout n1", "rt 1>2:RV#0 a=2", "rt 1>2:RV#1", "rt 1>2:AE#0", "rt 1>2:AE#1",
 		"write n1", "rt 1>2:AE#2", "rt 1>2:AE#3", "write n1", "rt 1>2:AE#4", "rt 1>2:AE#5")...)
-	for d := 0; d <= 4; d++ {
+	for d := 0; d <= 6; d++ {
 		reg(&explore.Suite{Name: fmt.Sprintf("stalesuffix3-d%d", d), Cfg: sim.Config{Voters: 3, SnapAt: 2}, Seed: staleSuffix, Monitors: snapMonitors,
 			Budget: sim.Budget{Timeouts: 1, Elapses: 1, Beats: 3, Writes: 1, Cuts: 1, Reorders: -1, Splits: 1, Deviations: d}})
 	}
@@ -479,19 +479,19 @@ func init() {
 	// committed its no-op with n2. "Long old log versus short new log."
 	oldLong := append(append([]sim.Event{}, seedLeader3...), sim.MustParse(
 		"isolate n0", "write n0", "write n0", "timeout n1", "rt 1>2:RV#0 a=2", "rt 1>2:RV#1", "rt 1>2:AE#0", "rt 1>2:AE#1")...)
-	for d := 0; d <= 5; d++ {
+	for d := 0; d <= 6; d++ {
 		reg(&explore.Suite{Name: fmt.Sprintf("oldlong3-d%d", d), Cfg: sim.Config{Voters: 3}, Seed: oldLong,
 			Budget: sim.Budget{Timeouts: 2, Elapses: 3, Writes: 1, Cuts: 1, Crashes: 1, Reorders: -1, Deviations: d}})
 		reg(&explore.Suite{Name: fmt.Sprintf("pending3-d%d", d), Cfg: sim.Config{Voters: 3}, Seed: oldLong,
 			Budget: sim.Budget{Timeouts: 1, Elapses: 1, Beats: 1, Writes: 2, Cuts: 1, Reorders: -1, Splits: 1, ClientTimeouts: 1, Deviations: d}})
 	}
 	// snapshots, compaction, conflicts and restarts on the real file-backed storages
-	for d := 0; d <= 4; d++ {
+	for d := 0; d <= 6; d++ {
 		reg(&explore.Suite{Name: fmt.Sprintf("filesnap3-d%d", d), Cfg: sim.Config{Voters: 3, SnapAt: 2, FileStore: true}, Seed: seedLeader3, Monitors: snapMonitors,
 			Budget: sim.Budget{Timeouts: 2, Elapses: 2, Beats: 2, Writes: 3, Cuts: 2, Crashes: 1, Restarts: 1, Reorders: -1, Splits: 1, Deviations: d}})
 	}
 	// snapshots on (threshold 2): local snapshots, compaction, installation
-	for d := 0; d <= 4; d++ {
+	for d := 0; d <= 6; d++ {
 		reg(&explore.Suite{Name: fmt.Sprintf("snap3-d%d", d), Cfg: sim.Config{Voters: 3, SnapAt: 2}, Seed: seedLeader3, Monitors: snapMonitors,
 			Budget: sim.Budget{Timeouts: 2, Elapses: 2, Beats: 2, Writes: 3, Cuts: 2, Crashes: 1, Restarts: 1, Reorders: -1, Splits: 1, Deviations: d}})
 		reg(&explore.Suite{Name: fmt.Sprintf("bigsnap3-d%d", d), Cfg: sim.Config{Voters: 3, SnapAt: 2, SnapPad: 33 * 1024}, Seed: seedLeader3, Monitors: snapMonitors,
@@ -499,21 +499,27 @@ func init() {
 		reg(&explore.Suite{Name: fmt.Sprintf("memsnap3-d%d", d), Cfg: sim.Config{Voters: 3, Spares: 1, SnapAt: 2}, Seed: seedLeader3, Monitors: snapMonitors,
 			Budget: sim.Budget{Timeouts: 1, Elapses: 1, Beats: 1, Writes: 2, Members: 1, Cuts: 1, Crashes: 1, Restarts: 1, Reorders: -1, Splits: 1, Deviations: d}})
 	}
+	// S-nonvoters with submissions (C03): the cut-off leader n0 reaches only the
+	// two non-voters; n1 leads term 2 on the voters' side.
+	for d := 0; d <= 6; d++ {
+		reg(&explore.Suite{Name: fmt.Sprintf("nvwrite5-d%d", d), Cfg: sim.Config{Voters: 3, Spares: 2}, Seed: seedNonVoters,
+			Budget: sim.Budget{Beats: 1, Writes: 2, Reorders: -1, Splits: 1, ClientTimeouts: 1, Deviations: d}})
+	}
 	// S-minority5, untimed (C05): leader n0 keeps only n1 (2 of 5 voters); n2 leads
 	// term 2 with n3 and n4.
 	minRead5 := append(append([]sim.Event{}, seedLeader5...), sim.MustParse("cut n0 a=2", "cut n0 a=3", "cut n0 a=4", "cut n1 a=2", "cut n1 a=3", "cut n1 a=4",
 		"timeout n2", "rt 2>3:RV#0 a=2", "rt 2>4:RV#0 a=2", "rt 2>3:RV#1", "rt 2>4:RV#1", "rt 2>3:AE#0", "rt 2>4:AE#0", "rt 2>3:AE#1", "rt 2>4:AE#1")...)
-	for d := 0; d <= 4; d++ {
+	for d := 0; d <= 6; d++ {
 		reg(&explore.Suite{Name: fmt.Sprintf("minread5-d%d", d), Cfg: sim.Config{Voters: 5}, Seed: minRead5,
 			Budget: sim.Budget{Beats: 3, Writes: 1, Reads: 1, Reorders: -1, Splits: 1, Deviations: d}})
 	}
 	// slow state machine: taking a snapshot (and restoring one) takes environment time
-	for d := 0; d <= 4; d++ {
+	for d := 0; d <= 6; d++ {
 		reg(&explore.Suite{Name: fmt.Sprintf("slowsnap3-d%d", d), Cfg: sim.Config{Voters: 3, SnapAt: 2, HoldFsm: "snapshot,restore"}, Seed: seedLeader3, Monitors: snapDurMonitors,
 			Budget: sim.Budget{Timeouts: 2, Elapses: 2, Beats: 2, Writes: 3, Cuts: 2, Crashes: 1, Restarts: 1, Reorders: -1, Splits: 1, Deviations: d}})
 	}
 	// slow Apply: the apply loop releases the node lock while the application works
-	for d := 0; d <= 4; d++ {
+	for d := 0; d <= 6; d++ {
 		reg(&explore.Suite{Name: fmt.Sprintf("slowapply3-d%d", d), Cfg: sim.Config{Voters: 3, HoldFsm: "apply"}, Seed: seedLeader3,
 			Budget: sim.Budget{Timeouts: 2, Elapses: 2, Beats: 2, Writes: 2, Reads: 1, Cuts: 1, Crashes: 1, Restarts: 1, Reorders: -1, Splits: 1, ClientTimeouts: 1, Deviations: d}})
 		reg(&explore.Suite{Name: fmt.Sprintf("slowapplysnap3-d%d", d), Cfg: sim.Config{Voters: 3, SnapAt: 2, HoldFsm: "apply,snapshot,restore"}, Seed: seedLeader3, Monitors: snapDurMonitors,
@@ -526,16 +532,16 @@ func init() {
 	restoring := append(append([]sim.Event{}, staleSuffix...), sim.MustParse("heal", "isolate n2",
 		"drop 0>1:AE#2", "drop 0>1:AE#3", "drop 0>2:AE#2", "drop 0>2:AE#3", "drop 1>0:RV#0", "drop 1>0:RV#1", "drop 1>0:AE#0", "drop 1>0:AE#1", "drop 1>0:AE#2", "drop 1>0:AE#3",
 		"deliver 1>0:IS#0")...)
-	for d := 0; d <= 4; d++ {
+	for d := 0; d <= 6; d++ {
 		reg(&explore.Suite{Name: fmt.Sprintf("restoring3-d%d", d), Cfg: sim.Config{Voters: 3, SnapAt: 2, HoldFsm: "restore"}, Seed: restoring, Monitors: snapDurMonitors,
 			Budget: sim.Budget{Timeouts: 1, Elapses: 1, Beats: 2, Writes: 1, Cuts: 1, Crashes: 1, Reorders: -1, Splits: 1, Deviations: d}})
 	}
 	// slow state machine: Restore takes environment time (the lock is released meanwhile)
-	for d := 0; d <= 4; d++ {
+	for d := 0; d <= 6; d++ {
 		reg(&explore.Suite{Name: fmt.Sprintf("slowrestore3-d%d", d), Cfg: sim.Config{Voters: 3, SnapAt: 2, HoldFsm: "restore"}, Seed: staleSuffix, Monitors: snapDurMonitors,
 			Budget: sim.Budget{Timeouts: 1, Elapses: 1, Beats: 3, Writes: 1, Cuts: 1, Reorders: -1, Splits: 1, Deviations: d}})
 	}
-	for d := 0; d <= 4; d++ {
+	for d := 0; d <= 6; d++ {
 		reg(&explore.Suite{Name: fmt.Sprintf("nvread5-d%d", d), Cfg: sim.Config{Voters: 3, Spares: 2}, Seed: seedNonVoters, Monitors: memberMonitors,
 			Budget: sim.Budget{Beats: 1, Writes: 1, Reads: 1, Reorders: -1, Splits: 1, Deviations: d}})
 	}
